@@ -113,6 +113,8 @@ def analyse(ctx, case, run, S):
 
 def run(ctx):
     parallel_cases(ctx, cases(ctx.tier), analyse)
+    import mirx_props
+    mirx_props.transcript_integers(ctx)
     bounds = {'configurations': 'sub-lattice incl. x = 6 and up to 8 rounds (thorough)', 'within': 'every absorbed datum is a free symbol: caller context, H, each G_k (free generators), each commitment, each promise, A, each L_j, R_j, A1, B',
               'queries': 'for every challenge c and every datum d that precedes it in the protocol: two copies of all data, all hash inputs of c equal, all data but d equal, d differs -> unsat'}
     return finish(ctx, [A_ALL[k] for k in ('A1', 'A3', 'A5')], FUNCS, bounds,
